@@ -457,7 +457,8 @@ func (w *verifWorld) newContract(v2 bool, wend uint64) *verifContract {
 		c.fc = types.V2FileContract{
 			RenterPublicKey: w.renterKey.PublicKey(), HostPublicKey: w.hostKey.PublicKey(),
 			ProofHeight: wend - 1, ExpirationHeight: wend, RevisionNumber: 1,
-			RenterOutput: types.SiacoinOutput{Value: types.Siacoins(5)}, HostOutput: types.SiacoinOutput{Value: types.Siacoins(3)},
+			// the contract id is derived from the contents: make every contract different
+			RenterOutput: types.SiacoinOutput{Value: types.Siacoins(5).Add(types.NewCurrency64(uint64(c.num + 1)))}, HostOutput: types.SiacoinOutput{Value: types.Siacoins(3)},
 			TotalCollateral: types.Siacoins(2), MissedHostValue: types.Siacoins(1),
 		}
 	} else {
